@@ -317,4 +317,71 @@ theorem ppFuel_spec : ∀ (f n : Nat) (res : Option (Nat × Nat)), ppFuel f n = 
     | some rk => exact this
     | none => exact this
 
+theorem ppTry_total (self : Nat → Option (Option (Nat × Nat))) (n : Nat) (hn : n < 2 ^ 1024)
+    (hself : ∀ m, m < n → ∃ res, self m = some res ∧ PPGood m res) :
+    ∀ (ks : List Nat), (∀ k ∈ ks, 2 ≤ k ∧ k ≤ 19) → ∃ res, ppTry self n ks = some res := by
+  intro ks
+  induction ks with
+  | nil => intro _; exact ⟨_, rfl⟩
+  | cons k ks ih =>
+    intro hks
+    obtain ⟨hk2, hk19⟩ := hks k (List.mem_cons_self ..)
+    unfold ppTry
+    simp only []
+    by_cases hpow : nthRoot n k ^ k = n
+    · rw [if_pos hpow]
+      by_cases hrn : nthRoot n k = n
+      · rw [if_pos hrn]; exact ⟨_, rfl⟩
+      · rw [if_neg hrn]
+        generalize nthRoot n k = r at *
+        -- r ≥ 2 and r < n
+        have hr2 : 2 ≤ r := by
+          by_contra hlt
+          have : r = 0 ∨ r = 1 := by omega
+          rcases this with rfl | rfl
+          · rw [Nat.zero_pow (by omega)] at hpow; exact hrn hpow
+          · rw [Nat.one_pow] at hpow; exact hrn hpow
+        have hrn' : r < n := by
+          rw [← hpow]
+          calc r = r ^ 1 := (Nat.pow_one r).symm
+            _ < r ^ k := Nat.pow_lt_pow_right (by omega) (by omega)
+        obtain ⟨res, hs, hg⟩ := hself r hrn'
+        rw [hs]
+        cases res with
+        | none => exact ⟨_, rfl⟩
+        | some rk =>
+          obtain ⟨rr, kk⟩ := rk
+          simp only []
+          obtain ⟨e1, e2⟩ := hg
+          have hrr : 2 ≤ rr := by
+            by_contra hlt
+            have : rr = 0 ∨ rr = 1 := by omega
+            rcases this with rfl | rfl
+            · rw [Nat.zero_pow (by omega)] at e1; omega
+            · rw [Nat.one_pow] at e1; omega
+          have hkk : kk < 1024 := by
+            by_contra hge
+            have h1 : 2 ^ 1024 ≤ 2 ^ kk := Nat.pow_le_pow_right (by decide) (by omega)
+            have h2 : 2 ^ kk ≤ rr ^ kk := Nat.pow_le_pow_left hrr kk
+            omega
+          rw [if_neg (by
+            have : k * kk ≤ 19 * 1024 := Nat.mul_le_mul hk19 (by omega)
+            omega)]
+          exact ⟨_, rfl⟩
+    · rw [if_neg hpow]
+      exact ih (fun k hk => hks k (List.mem_cons_of_mem _ hk))
+
+theorem ppFuel_total : ∀ (f n : Nat), n < f → n < 2 ^ 1024 → ∃ res, ppFuel f n = some res := by
+  intro f
+  induction f with
+  | zero => intro n h; omega
+  | succ f ih =>
+    intro n hf hn
+    unfold ppFuel
+    apply ppTry_total (ppFuel f) n hn
+    · intro m hm
+      obtain ⟨res, hres⟩ := ih m (by omega) (by omega)
+      exact ⟨res, hres, ppFuel_spec f m res hres⟩
+    · decide
+
 end Ymq.Arith
